@@ -546,28 +546,46 @@ func c04ErrToken(w *World, r *Report) {
 	// the Lex type switches: default arm must yield ERR
 	for _, g := range []struct{ pkg, typ string }{{"xpath/grammars/expr", "exprLex"}, {"xpath/grammars/leafref", "leafrefLex"}, {"xpath/grammars/path_eval", "pathEvalLex"}} {
 		m := w.Method(g.pkg, g.typ, "Lex")
-		fd, p := w.FuncDecl(m)
+		fd, _ := w.FuncDecl(m)
 		ok := false
-		ast.Inspect(fd.Body, func(x ast.Node) bool {
-			ts, isTS := x.(*ast.TypeSwitchStmt)
-			if !isTS {
-				return true
-			}
-			for _, c := range ts.Body.List {
-				cc := c.(*ast.CaseClause)
-				if cc.List != nil {
-					continue
-				}
-				for _, s := range cc.Body {
-					if as, isA := s.(*ast.AssignStmt); isA && len(as.Rhs) == 1 {
-						if v, isC := ConstInt(p, as.Rhs[0]); isC && v == errTok {
-							ok = true
-						}
+		if f := w.SSAFunc(m); f != nil && len(ssaLoops(f)) == 0 {
+			// the token handed to the parser when the token value is of none of the kinds tested for
+			// (every type test fails, the value is not nil) is ERR — possibly through the token mapping
+			sym := NewSym(w)
+			nTests := 0
+			model := func(a *pcAtom) (bool, bool) {
+				if ex, isEx := a.v.(*ssa.Extract); isEx && ex.Index == 1 {
+					if ta, isTA := ex.Tuple.(*ssa.TypeAssert); isTA && ta.CommaOk {
+						nTests++
+						return false, true
 					}
 				}
+				if a.op == token.EQL && a.x != nil && a.y != nil && (isNilConst(a.x) || isNilConst(a.y)) {
+					if _, isIface := a.x.Type().Underlying().(*types.Interface); isIface {
+						return false, true
+					}
+				}
+				return false, false
 			}
-			return true
-		})
+			all := true
+			rows := 0
+			for _, row := range sym.retTable(f, 0) {
+				if reached, decided := pcEvalFree(row.cond, model); decided && !reached {
+					continue
+				}
+				rows++
+				v := row.val
+				if c, isCall := v.(*ssa.Call); isCall && len(c.Call.Args) >= 1 && c.Call.StaticCallee() != nil && strings.HasPrefix(pkgPathOf(c.Call.StaticCallee()), modPath) {
+					v = c.Call.Args[len(c.Call.Args)-1] // the mapping of common token values to the grammar's own
+				}
+				tv, decided := sym.ValueUnder(f, v, model, 0)
+				k, isK := intConstOf(tv)
+				if !decided || !isK || k != errTok {
+					all = false
+				}
+			}
+			ok = all && rows > 0 && nTests > 0
+		}
 		r.Check(ok, "R04.6", g.typ+".Lex default arm", fd.Pos(), "unknown token value kinds become ERR", "a token value of unexpected kind is passed to the parser instead of ERR")
 	}
 	for _, gname := range []string{"expr", "leafref", "path_eval"} {
